@@ -95,8 +95,13 @@ def generate(spec):
         if rng.random() < 0.4:
             xm["base_constants"] = {"constant": rng.choice([0.25, 4.0])}
         cfg["xmile"] = xm
+    second = None
+    if channel == "dict" and rng.random() < 0.5:
+        # a second manager on the same model that also owns a scenario called "plain": one session may cover both
+        second = {"name": "smG", "base": 0, "scenarios": {"plain": {}, "g0": c06.gen_settings(rng, tpl, base, partial_runspecs=True)}}
+        cfg["managers"].append(second)
     # later settings, in a chosen arrival order
-    keys = [("smF", s) for s in mgr["scenarios"]]
+    keys = [("smF", s) for s in mgr["scenarios"]] + ([("smG", s) for s in second["scenarios"]] if second else [])
     xkeys = [("smX", s) for s in cfg.get("xmile", {}).get("scenarios", {})]
     ops = []
     for _ in range(rng.randint(2, 7)):
@@ -118,7 +123,10 @@ def generate(spec):
         elif r < 0.55:
             ops.append({"op": "rest_run", "manager": mgrn, "scenario": sc, "settings": {mgrn: {sc: st}}, "equations": eqs})
         elif r < 0.85:
-            ops.append({"op": "begin_session", "managers": [mgrn], "scenarios": [sc], "settings": {mgrn: {sc: st}}, "equations": eqs})
+            smgrs = [mgrn]
+            if second and sc == "plain" and rng.random() < 0.7:
+                smgrs = ["smF", "smG"] if rng.random() < 0.5 else ["smG", "smF"]      # the settings still address ONE of them
+            ops.append({"op": "begin_session", "managers": smgrs, "scenarios": [sc], "settings": {mgrn: {sc: st}}, "equations": eqs})
             if rng.random() < 0.5:
                 ops.append({"op": "run_step", "settings": {}})
             ops.append({"op": "end_session"})
